@@ -27,6 +27,18 @@ def main(argv=None) -> int:
         os.environ["VERIF_EVIDENCE_DIR"] = tempfile.mkdtemp(prefix="verif-ev-")
     seed = int(os.environ.get("VERIF_SEED", "0") or 0)
     chk = None
+    # time budget: an analysis that does not finish is an ANALYSIS-ERROR (exit 2), never a hang
+    import signal
+
+    def _timeout(signum, frame):
+        raise AnalysisError(f"time budget of {budget} s exceeded")
+
+    budget = int(os.environ.get("VERIF_TIME_BUDGET", "240") or 240)
+    try:
+        signal.signal(signal.SIGALRM, _timeout)
+        signal.alarm(budget)
+    except (ValueError, AttributeError):
+        pass
     try:
         repo = Repo(a.root)
         chk = Check(pid, a.tier, repo, seed)
@@ -47,6 +59,10 @@ def main(argv=None) -> int:
             chk = Check(pid, a.tier, None, seed)
         tb = traceback.format_exc().strip().splitlines()
         chk.error("internal", "-", f"{type(e).__name__}: {e} @ {tb[-3].strip() if len(tb) >= 3 else ''}")
+    try:
+        signal.alarm(0)
+    except (ValueError, AttributeError):
+        pass
     rc = chk.finish()
     if a.replay:
         try:
